@@ -119,6 +119,23 @@ theorem c07_alive_dies_only_by_callback {S : List Nat} {p : Policy} (h : Reach S
     (hna : (p.node old).st ≠ .alive) : Ek p (add p id) ∧ Ek p (update p id old) ∧ Ek p (evictNodes p) :=
   ⟨ek_add id (reach_inv h), ek_update old (reach_inv h) hs hna, ek_evictNodes (reach_inv h)⟩
 
+/-- C07: **Overflow only if the total weight of the entries mapped AT THAT MOMENT exceeds the maximum** — inside one eviction
+    pass, started from a state reached by any sequential history: every node handed to the eviction callback is removed from a
+    state in which `maximum < Σ weights of the currently mapped nodes`, the mapped set shrinking in lock-step with the callback
+    (`JustT`); and the pass ends with the deques holding exactly the nodes still mapped -/
+theorem c07_every_eviction_justified_at_table (p0 : Policy)
+    (h0 : p0.window = [] ∧ p0.probation = [] ∧ p0.prot = [] ∧ p0.weightedSize = 0) (ops : List JOp) :
+    let s := ops.foldl jstep { S := [], p := p0, live := [] }
+    ∃ live', JustT (evictFromWindow s.p).1 s.live (evictNodes s.p) live' ∧ (all (evictNodes s.p)).Perm live' := by
+  intro s
+  have h := jrun_inv p0 h0 ops
+  have hperm : (all s.p).Perm s.live := by
+    rw [List.perm_ext_iff_of_nodup (reach_inv h.reach).c h.nodup]
+    intro id
+    rw [← linked_iff_all]
+    exact c05_tracked_eq_mapped p0 h0 ops id
+  exact evictNodes_justified_at_table (reach_inv h.reach) (reach_winv h.reach) s.live hperm
+
 /-! ### non-vacuity: three inserts into a cache of maximum 2, a replacement, a removal -/
 def q0 : Policy := { maximum := 2, windowMaximum := 1, mainProtectedMaximum := 1 }
 def exOps : List JOp := [.insert 1 1 1, .insert 2 2 1, .insert 3 3 1, .replace 4 3 3 1, .remove 4]
